@@ -405,7 +405,25 @@ class C11(HistoryProfile):
                                              "add_data_column", "add_reverse"), p_off=0.25)
     cfg["max_tables"] = rng.randint(1, 3)
     cfg["none_p"] = 0.05
+    cfg["seed_pair"] = rng.choice([None, "ref", "reflist", "self"])
     return cfg
+
+  def first_events(self, sim, g, cfg):
+    evs = [{"k": "open"}]
+    kind = cfg.get("seed_pair")
+    if kind:
+      # most runs start with a two-way pair in place, so that the history works on it from the start
+      g.ntab += 2
+      g.ncol += 3
+      typ = {"ref": "Ref:T2", "reflist": "RefList:T2", "self": "RefList:T1"}[kind]
+      acts = [["AddTable", "T2", [{"id": "c1", "type": "Text", "isFormula": False}]],
+              ["BulkAddRecord", "T2", [None] * 3, {"c1": ["a", "b", "c"]}],
+              ["AddTable", "T1", [{"id": "c2", "type": "Int", "isFormula": False},
+                                  {"id": "c3", "type": typ, "isFormula": False}]],
+              ["BulkAddRecord", "T1", [None] * 3, {"c2": [1, 2, 3]}],
+              ["AddReverseColumn", "T1", "c3"]]
+      evs.append({"k": "bundle", "a": acts, "ops": ["seed_pair"]})
+    return evs
 
   def next_event(self, sim, g, cfg, st, i):
     for _ in range(5):
